@@ -2,7 +2,7 @@
 of every chain of if / else / while / for / block inside a function body; counter factories in every
 interleaving of calls; recursion (direct, mutual), functions in variables / arrays / objects; arity and
 callability errors; random programs."""
-import itertools
+import itertools, zlib
 import core, lang, progs, skel
 from lang import *  # noqa
 from props.common import sub_rng, diff_runs, replay_generic, corpus_cases
@@ -24,7 +24,7 @@ def run(env, tier, seed, broken=None):
     L = 4 if tier == 'quick' else 6
     for k in range(1, L + 1):
         for seq in itertools.product(['a0', 'a1', 'b0', 'b1', 'c0'], repeat=k):
-            if k >= 4 and (hash(seq) % (5 if tier == 'quick' else 2)):
+            if k >= 4 and ((zlib.crc32(repr((seed, seq)).encode())) % (5 if tier == 'quick' else 2)):
                 continue
             body = factory + '%s a = mk(0);\n%s b = mk(100);\n%s c = mk(-5);\n' % (VAR, VAR, VAR)
             body += ''.join('%s %s[%s]();\n' % (PRINT, s[0], s[1]) for s in seq)
@@ -70,6 +70,37 @@ def run(env, tier, seed, broken=None):
         '%s lp(n) { %s (n > 0) { %s (n == 2) { %s lp(n - 1, 0); } n = n - 1; } %s "done"; }\n%s lp(1);\n%s lp(3);\n' % (FUN, WHILE, IF, RETURN, RETURN, PRINT, PRINT),
         '%s twice(f, x) { %s f(f(x)); }\n%s inc(x) { %s x + 1; }\n%s twice(inc, 1);\n%s twice(inc, twice(inc, 5));\n%s twice(inc, twice(inc, 5));\n' % (FUN, RETURN, FUN, RETURN, PRINT, PRINT, PRINT),
     ]
+    # escaping closures: a variable of a scope B (block, function body, loop body, branch) is captured by a function declared
+    # directly in B or one / two levels deeper (nested block, branch, loop body), the function leaves B through an outer
+    # variable, an array or an object, B ends, LATER scopes of the same shape are opened (with variables of the same and of
+    # other names) and the function is called inside and after them: it still owns B's variable and nothing else
+    def wrap(kind, inner):
+        if kind == 'direct': return inner
+        if kind == 'block': return '{\n' + inner + '}\n'
+        if kind == 'if': return '%s (%s) {\n%s}\n' % (IF, TRUE, inner)
+        if kind == 'else': return '%s (%s) { } %s {\n%s}\n' % (IF, FALSE, ELSE, inner)
+        if kind == 'while': return '%s once = 0;\n%s (once < 1) {\nonce = once + 1;\n%s}\n' % (VAR, WHILE, inner)
+        if kind == 'for': return '%s (%s q = 0; q < 2; q = q + 1) {\n%s}\n' % (FOR, VAR, inner)
+        if kind == 'block2': return '{\n{\n' + inner + '}\n}\n'
+        if kind == 'forif': return '%s (%s q = 0; q < 2; q = q + 1) {\n%s (q == 1) {\n%s}\n}\n' % (FOR, VAR, IF, inner)
+    def scopeB(kind, body):
+        if kind == 'block': return '{\n' + body + '}\n'
+        if kind == 'fn': return '%s scope() {\n%s}\nscope();\n' % (FUN, body)
+        if kind == 'for': return '%s (%s z = 0; z < 1; z = z + 1) {\n%s}\n' % (FOR, VAR, body)
+        if kind == 'if': return '%s (%s) {\n%s}\n' % (IF, TRUE, body)
+    escapes = {'var': ('%s out1 = %s;\n%s out2 = %s;\n' % (VAR, NIL, VAR, NIL), 'out1 = bump;\nout2 = read;\n', 'out1', 'out2'),
+               'arr': ('%s outs = [];\n' % VAR, 'outs = %s(outs, bump);\nouts = %s(outs, read);\n' % (APPEND, APPEND), 'outs[0]', 'outs[1]'),
+               'obj': ('%s box = {};\n' % VAR, 'box.b = bump;\nbox.r = read;\n', 'box.b', 'box.r')}
+    for bk in ('block', 'fn', 'for', 'if'):
+        for wk in ('direct', 'block', 'if', 'else', 'while', 'for', 'block2', 'forif'):
+            for ek, (pre, put, bump, read) in sorted(escapes.items()):
+                if tier == 'quick' and (zlib.crc32(repr((seed, bk, wk, ek)).encode()) % 2) and wk in ('else', 'block2') :
+                    continue
+                inner = '%s bump() { count = count + 1; %s count + base; }\n%s read() { %s [count, base]; }\n%s' % (FUN, RETURN, FUN, RETURN, put)
+                body = '%s base = 10;\n%s count = 0;\n%s' % (VAR, VAR, wrap(wk, inner))
+                later = ''.join(scopeB(bk2, '%s base = %d;\n%s count = %d;\n%s other = 1;\n%s %s();\n%s [count, base];\n%s' % (VAR, 500 + j, VAR, 40 + j, VAR, PRINT, bump, PRINT, wrap(wk, '%s tmp = %d;\n%s tmp;\n' % (VAR, j, PRINT))))
+                                for j, bk2 in enumerate((bk, 'block', bk)))
+                extra.append(pre + scopeB(bk, body) + later + '%s %s();\n%s %s();\n' % (PRINT, bump, PRINT, read))
     for e in extra:
         cases.append({'id': 'e%d' % n, 'src': e}); n += 1
     for i in range(1000 if tier == 'quick' else 30000):
